@@ -184,6 +184,18 @@ func cmdExtract(args []string) {
 							}
 						}
 					case *ast.CallExpr:
+						// a method called on a package-level variable may mutate it (e.g. a rand.Source, a cache type)
+						if sel, ok := t.Fun.(*ast.SelectorExpr); ok {
+							if _, isMethod := ti.Uses[sel.Sel].(*types.Func); isMethod {
+								if id := rootIdent(sel.X); id != nil && id != sel.Sel {
+									if v := isPkgVar(id); v != nil {
+										if _, isIface := v.Type().Underlying().(*types.Interface); isIface || !isValueOnly(v.Type()) {
+											mark(sel.X, "methodcall")
+										}
+									}
+								}
+							}
+						}
 						if id, ok := t.Fun.(*ast.Ident); ok && len(t.Args) > 0 {
 							if _, isB := ti.Uses[id].(*types.Builtin); isB && (id.Name == "delete" || id.Name == "clear" || id.Name == "copy") {
 								mark(t.Args[0], "builtin")
@@ -220,6 +232,16 @@ func cmdExtract(args []string) {
 	if err := os.WriteFile(*out, data, 0o644); err != nil {
 		harnessErr("extract: %v", err)
 	}
+}
+
+// isValueOnly reports whether methods called on a value of this type cannot mutate it through the variable
+// (basic types, and structs/arrays of such without pointer-receiver methods are not distinguished: be conservative)
+func isValueOnly(t types.Type) bool {
+	switch t.Underlying().(type) {
+	case *types.Basic:
+		return true
+	}
+	return false
 }
 
 func itoa(i int) string {
